@@ -524,6 +524,16 @@ class RealEncoder(AbstractItemEncoder):
 class SequenceEncoder(AbstractItemEncoder):
     omitEmptyOptionals = False
 
+    @staticmethod
+    def _isDefaultValue(component, namedType):
+        try:
+            return component == namedType.asn1Object
+
+        except error.PyAsn1Error:
+            # one of the two holds an unset (schema) component where the
+            # other holds a value: not the default value
+            return False
+
     # TODO: handling three flavors of input is too much -- split over codecs
 
     def encodeValue(self, value, asn1Spec, encodeFun, **options):
@@ -554,7 +564,7 @@ class SequenceEncoder(AbstractItemEncoder):
                             LOG('not encoding OPTIONAL component %r' % (namedType,))
                         continue
 
-                    if namedType.isDefaulted and component == namedType.asn1Object:
+                    if namedType.isDefaulted and self._isDefaultValue(component, namedType):
                         if LOG:
                             LOG('not encoding DEFAULT component %r' % (namedType,))
                         continue
@@ -605,7 +615,7 @@ class SequenceEncoder(AbstractItemEncoder):
                         LOG('not encoding OPTIONAL component %r' % (namedType,))
                     continue
 
-                if namedType.isDefaulted and component == namedType.asn1Object:
+                if namedType.isDefaulted and self._isDefaultValue(component, namedType):
                     if LOG:
                         LOG('not encoding DEFAULT component %r' % (namedType,))
                     continue
